@@ -56,6 +56,25 @@ Section Defs.
   (* orthogonal projector: idempotent and self-adjoint (additivity is not needed by any theorem here) *)
   Definition orth_projector (P : E -> E) : Prop := idempotent P /\ self_adjoint P.
 
+  Definition additive (P : E -> E) : Prop := forall u v, P (vsub E u v) = vsub E (P u) (P v).
+
+  (* KY FAN'S MAXIMUM PRINCIPLE at one bond (K. Fan, Proc. Nat. Acad. Sci. USA 35 (1949) 652-655; R. Bhatia, Matrix
+     Analysis, Springer 1997, Problem I.6.15 / Exercise II.1.13; Horn & Johnson, Matrix Analysis, 2nd ed.,
+     Corollary 4.3.39 applied to A A^* and A^* A):
+        sum_{i<=m} sigma_i(A)^2  =  max { |X A|^2 : X an orthogonal projector of rank <= m on the left space }
+                                 =  max { |A Q|^2 : Q an orthogonal projector of rank <= m on the right space } .
+     Abstractly: [side] is the class of rank-<=m orthogonal projectors acting on ONE tensor factor of the bond
+     (left or right), [right] the right-acting ones, [top v] the sum of the m largest squared Schmidt values of v.
+     The principle says: no member captures more than top, and some right-acting member attains it.
+     It is used ONLY as an explicit hypothesis (it is not proved in this development). *)
+  Definition ky_fan_principle (side right : (E -> E) -> Prop) (top : E -> R) : Prop :=
+    (forall X v, side X -> kle R (normsq (X v)) (top v)) /\
+    (forall v, exists Q, right Q /\ normsq (Q v) = top v).
+  (* what the classes are (no spectral content): right-acting members are members; members are additive
+     orthogonal projectors *)
+  Definition projector_class (side right : (E -> E) -> Prop) : Prop :=
+    (forall X, right X -> side X) /\ (forall X, side X -> orth_projector X /\ additive X).
+
   (* pairwise orthogonality of a list of vectors *)
   Inductive pairwise_orth : list E -> Prop :=
   | po_nil : pairwise_orth []
@@ -73,4 +92,7 @@ Arguments self_adjoint {R} _ _.
 Arguments idempotent {R} _ _.
 Arguments orth_projector {R} _ _.
 Arguments pairwise_orth {R} _ _.
+Arguments additive {R} _ _.
+Arguments ky_fan_principle {R} _ _ _ _.
+Arguments projector_class {R} _ _ _.
 Arguments ksum_upto {R} _ _.
